@@ -166,7 +166,9 @@ inline void parallel(int nshards,int nproc,const std::function<void(int)> &fn,do
 		if(p<0) break; if(!running.count(p)) continue; int sh=running[p]; running.erase(p);
 		bool ok=WIFEXITED(st)&&WEXITSTATUS(st)==0;
 		std::string res=sd+"/shard"+std::to_string(sh)+".res";
-		if(ok){ FILE *f=fopen(res.c_str(),"rb"); if(!f||!merge_ctx(f)){ fprintf(stderr,"harness error: cannot merge shard %d\n",sh); c.harness_error=true;} if(f) fclose(f); unlink(res.c_str()); unlink((sd+"/shard"+std::to_string(sh)+".err").c_str()); }
+		if(ok){ bool he_before=c.harness_error; FILE *f=fopen(res.c_str(),"rb"); if(!f||!merge_ctx(f)){ fprintf(stderr,"harness error: cannot merge shard %d\n",sh); c.harness_error=true;} if(f) fclose(f); unlink(res.c_str()); std::string el=sd+"/shard"+std::to_string(sh)+".err";
+			if(c.harness_error&&!he_before){ /* the shard flagged a harness error: its stderr says why */ fprintf(stderr,"harness error reported by shard %d:\n",sh); std::ifstream ef(el); std::string ln; int k=0; while(k<40&&std::getline(ef,ln)){ if(ln.find("harness error")!=std::string::npos||k<10) fprintf(stderr,"  | %s\n",ln.substr(0,300).c_str()); k++; } }
+			unlink(el.c_str()); }
 		else {
 			std::string last=slots+4096*(size_t)sh+8; bool timed=slots[4096*(size_t)sh]==1;
 			std::string how = timed? "timeout" : WIFSIGNALED(st)? "signal "+std::to_string(WTERMSIG(st)) : "exit "+std::to_string(WEXITSTATUS(st));
@@ -198,7 +200,8 @@ inline uint64_t explore(int max_dev,const std::function<void(Envx&)> &body,bool 
 		if(stop()){ if(complete)*complete=false; break; }
 		std::vector<int> p=std::move(stack.back()); stack.pop_back();
 		e.begin(p); body(e); runs++;
-		if(e.diverged||e.trace.size()<p.size()){ C().harness_error=true; fprintf(stderr,"harness error: choice sequence diverged on replay (prefix %zu, trace %zu)\n",p.size(),e.trace.size()); continue; }
+		// a replayed prefix must meet the same choice points again; one retry absorbs a scheduling hiccup of the code under test's own threads, a second divergence is a hard harness error naming the case
+		if(e.diverged||e.trace.size()<p.size()){ size_t t1=e.trace.size(); e.begin(p); body(e); runs++; if(e.diverged||e.trace.size()<p.size()){ C().harness_error=true; std::string pc; for(size_t i=0;i<p.size();i++) pc+=(i?",":"")+std::to_string(p[i]); fprintf(stderr,"harness error: choice sequence diverged on replay twice (prefix %zu [%s], traces %zu and %zu) in case: %.300s\n",p.size(),pc.c_str(),t1,e.trace.size(),C().announce?C().announce+8:"?"); continue; } guard("replays_needing_a_retry"); }
 		int dev=0; for(size_t i=0;i<p.size();i++) if(e.trace[i]) dev++;
 		for(size_t i=e.trace.size();i-->p.size();){
 			// deviations before i
